@@ -2,6 +2,7 @@ package catalog
 
 import (
 	"encoding/json"
+	"fmt"
 	"sync"
 
 	"github.com/jsightapi/jsight-schema-core/bytes"
@@ -16,6 +17,9 @@ type ExchangeRegexSchema struct {
 	// example keeps the example generated for the catalog: the generator of
 	// regex.RSchema returns a new value on every call.
 	example *regexExample
+
+	// source is the text the schema was made from.
+	source bytes.Bytes
 }
 
 type regexExample struct {
@@ -65,9 +69,33 @@ func (e ExchangeRegexSchema) Notation() notation.SchemaNotation {
 	return notation.SchemaNotationRegex
 }
 
+// CheckWithExample checks the regular expression and makes sure that an
+// example can be generated for it.
+func (e ExchangeRegexSchema) CheckWithExample() error {
+	if err := e.Check(); err != nil {
+		return err
+	}
+	return ProbeRegexExample(e.source)
+}
+
+// ProbeRegexExample tells if the generator of examples can cope with the
+// regular expression. It panics for an expression which matches nothing (an
+// empty character class); the probe works on a copy of its own, so the examples
+// which get into the catalog are not affected. An expression which does not
+// compile is not the business of the probe.
+func ProbeRegexExample(regexStr bytes.Bytes) (err error) {
+	defer func() {
+		if r := recover(); r != nil {
+			err = fmt.Errorf("an example cannot be generated for the regular expression (%v)", r)
+		}
+	}()
+	_, _ = regex.New("", regexStr).Example()
+	return nil
+}
+
 func NewExchangeRegexSchema(regexStr bytes.Bytes) (*ExchangeRegexSchema, error) {
 	s := regex.New("", regexStr)
-	return &ExchangeRegexSchema{RSchema: s, example: &regexExample{}}, nil
+	return &ExchangeRegexSchema{RSchema: s, example: &regexExample{}, source: regexStr}, nil
 }
 
 func newExchangeRegexSchema(s *regex.RSchema) *ExchangeRegexSchema {
